@@ -25,7 +25,7 @@ SP(n) == [st |-> n.st, depth |-> n.depth, value |-> n.value, ub |-> n.ub, path |
 \*   layerOf   node id -> layer index (1 = root layer)        gone      ids merged away (deleted by relax)
 \*   shown     node ids drawn when show_deleted = FALSE (None until seen)
 D0 == [nlayers |-> 0, var |-> -1, cur |-> <<>>, pending |-> <<>>, nnodes |-> 0, edges |-> {}, arcs |-> {}, lastT |-> None, merge |-> None,
-       expanded |-> 0, val |-> <<>>, layerOf |-> <<>>, gone |-> {}, nrecycled |-> 0, shown |-> {}, seen |-> FALSE, state |-> <<>>, over |-> FALSE, term |-> {}]
+       expanded |-> 0, val |-> <<>>, layerOf |-> <<>>, gone |-> {}, nrecycled |-> 0, full |-> [n |-> -1, ids |-> {}, st |-> <<>>, edges |-> {}, term |-> {}], state |-> <<>>, over |-> FALSE, term |-> {}]
 Init == l = 1 /\ I = None /\ HT = None /\ run = 0 /\ ddk = "lel" /\ inp = None /\ D = D0 /\ devs = {}
 Ev(e) == l <= Len(Rec) /\ Rec[l].ev = e /\ l' = l + 1
 F(e, f) == Rec[l].ev = e /\ Rec[l].f = f
@@ -84,7 +84,7 @@ TCost ==
      /\ devs' = Add(devs, Tag(~okdom, "C12 decision-outside-domain")
                           \cup Tag(okdom /\ Q(I, e.dst) # TrQ(I, var, q, a), "C12 cost-dst-is-not-the-transition")
                           \cup Tag(var # D.var \/ e.src \notin DOMAIN D.cur, "C12 cost-outside-layer")
-                          \cup Tag(D.lastT = None \/ D.lastT.src # e.src \/ D.lastT.dec # e.dec \/ D.lastT.ret # e.dst, "C12 cost-args-differ-from-transition"))
+                          \cup Tag(D.lastT = None \/ D.lastT.src # e.src \/ D.lastT.dec # e.dec \/ D.lastT.ret # e.dst, "DIV cost-call-does-not-follow-its-transition"))
      /\ D' = [D EXCEPT !.lastT = None,
                        !.arcs = D.arcs \cup {[src |-> e.src, dec |-> e.dec, dst |-> e.dst, cost |-> e.ret, layer |-> D.nlayers]},
                        !.pending = IF fresh THEN Put(D.pending, e.dst, to) ELSE D.pending,
@@ -143,45 +143,72 @@ TPanic == /\ Ev("panic") /\ devs' = Add(devs, {"C20 panic-in-library", "C12 pani
 
 \* ------------------------------------------------------------------ C20
 FlagCount(c) == Cardinality({i \in 1..4 : c[i]})
+\* The comparison never relies on how the implementation numbers its nodes: the complete drawings (show_deleted) are compared with
+\* the rebuilt diagram as BAGS of states / arcs / values, and name the nodes; the other drawings of the same diagram are compared
+\* with the complete one (same numbers within one diagram) and with the number / states of the nodes the protocol says are deleted.
+BagOf(S, f(_)) == [v \in {f(x) : x \in S} |-> Cardinality({x \in S : f(x) = v})]
 VizTags(e) ==
-  LET ids == {e.nodes[i].id : i \in DOMAIN e.nodes}
+  LET dn == DOMAIN e.nodes
+      ids == {e.nodes[i].id : i \in dn}
       all == 0..(D.nnodes - 1)
       showDel == e.cfg[5]
+      StOfId(id) == LET i == CHOOSE j \in dn : e.nodes[j].id = id IN e.nodes[i].st
       drawnEdges == {[from |-> e.edges[i].from, to |-> e.edges[i].to, var |-> e.edges[i].var, val |-> e.edges[i].val, cost |-> e.edges[i].cost] : i \in DOMAIN e.edges}
-      expEdges == {x \in D.edges : x.to \in ids}
-      termFrom == {e.term[i].from : i \in DOMAIN e.term}
+      known == \A x \in drawnEdges : x.from \in ids /\ x.to \in ids
       hasTerm == D.term # {}
       bestTerm == IF D.term = {} THEN {} ELSE {i \in D.term : \A j \in D.term : D.val[j] <= D.val[i]}
+      \* expected number of deleted nodes
+      wide == {L \in {D.layerOf[i] : i \in all} : LET mem == {i \in all : D.layerOf[i] = L} IN mem \cap D.term = {} /\ Cardinality(mem) > inp.width}
+      delRestricted == FoldSet(LAMBDA L, acc : acc + Cardinality({i \in all : D.layerOf[i] = L}) - inp.width, 0, wide)
+      hiddenN == D.full.n - Cardinality(ids)
+      hiddenSt == BagOf(D.full.ids \ ids, LAMBDA id : D.full.st[id])
+      goneSt == BagOf(D.gone, LAMBDA i : D.state[i])
+      wideSt == BagOf({i \in all : D.layerOf[i] \in wide}, LAMBDA i : D.state[i])
+      SubBagV(a, b2) == \A v \in DOMAIN a : v \in DOMAIN b2 /\ a[v] <= b2[v]
   IN Tag(~e.ok, "C20 panic")
      \cup (IF ~e.ok THEN {} ELSE
           Tag(Len(e.malformed) > 0, "C20 malformed-dot")
      \cup Tag(Cardinality(ids) # Len(e.nodes), "C20 node-declared-twice")
-     \cup Tag(~(ids \subseteq all), "C20 unknown-node")
-     \cup Tag(showDel /\ ids # all, "C20 node-missing")
-     \cup Tag(~showDel /\ D.seen /\ ids # D.shown, "C20 hidden-set-differs-between-drawings")
-     \* hidden nodes are exactly deleted ones: merged-away nodes of a relaxed diagram are known from the merge calls
-     \cup Tag(~showDel /\ inp.type = "relaxed" /\ ~((all \ ids) \subseteq D.gone), "C20 node-hidden-that-was-not-deleted")
-     \cup Tag(~showDel /\ inp.type = "exact" /\ ids # all, "C20 node-hidden-that-was-not-deleted")
-     \cup Tag(~showDel /\ inp.type = "restricted" /\ \E h \in all \ ids : h \in D.term \/ Cardinality({i \in all : D.layerOf[i] = D.layerOf[h]}) <= inp.width, "C20 node-hidden-that-was-not-deleted")
-     \* deleted nodes are hidden: restricted layers keep exactly `width` nodes; a relaxed diagram shows at most one merged-away node per recycled merge
-     \cup Tag(~showDel /\ inp.type = "restricted" /\ \E L \in {D.layerOf[i] : i \in all} :
-                   LET members == {i \in all : D.layerOf[i] = L} IN members \cap D.term = {} /\ Cardinality(members) > inp.width /\ Cardinality(members \cap ids) # inp.width, "C20 deleted-node-drawn")
-     \cup Tag(~showDel /\ inp.type = "relaxed" /\ Cardinality(D.gone \cap ids) > D.nrecycled, "C20 deleted-node-drawn")
-     \cup Tag(drawnEdges # expEdges, "C20 edges-differ-from-arcs")
-     \cup Tag(\E x \in drawnEdges : x.from \notin all \/ x.to \notin ids, "C20 edge-to-undeclared-node")
+     \cup Tag(~known, "C20 edge-to-undeclared-node")
+     \cup Tag(Len(e.edges) # Cardinality(drawnEdges), "C20 edge-drawn-twice")
      \cup Tag((e.terminal >= 1) # hasTerm \/ e.terminal > 1, "C20 terminal-node-iff-last-layer")
-     \cup Tag(hasTerm /\ termFrom # (D.term \cap ids), "C20 terminal-edges")
-     \cup Tag(hasTerm /\ {e.term[i].from : i \in {j \in DOMAIN e.term : e.term[j].pw = 3}} # (bestTerm \cap ids), "C20 terminal-best-edges")
      \cup Tag(Len(e.clusters) > 0 /\ ~(e.cfg[5] /\ e.cfg[6]), "C20 clusters-without-flags")
-     \cup Tag(\E i \in DOMAIN e.nodes : e.nodes[i].nfields # FlagCount(e.cfg), "C20 label-fields")
-     \cup Tag(e.cfg[1] /\ \E i \in DOMAIN e.nodes : "val" \notin DOMAIN e.nodes[i].fields, "C20 label-fields")
-     \cup Tag(e.cfg[1] /\ \E i \in DOMAIN e.nodes : "val" \in DOMAIN e.nodes[i].fields /\ e.nodes[i].id \in DOMAIN D.val /\ e.nodes[i].fields.val # D.val[e.nodes[i].id], "C20 value-label"))
+     \cup Tag(\E i \in dn : e.nodes[i].nfields # FlagCount(e.cfg), "C20 label-fields")
+     \cup Tag(e.cfg[1] /\ \E i \in dn : "val" \notin DOMAIN e.nodes[i].fields, "C20 label-fields")
+     \cup (IF showDel
+           THEN \* complete drawing against the rebuilt diagram, as bags
+                Tag(BagOf(dn, LAMBDA i : e.nodes[i].st) # BagOf(all, LAMBDA i : D.state[i]), "C20 nodes-differ-from-diagram")
+           \cup Tag(known /\ BagOf(drawnEdges, LAMBDA x : <<StOfId(x.from), StOfId(x.to), x.var, x.val, x.cost>>)
+                            # BagOf(D.edges, LAMBDA x : <<D.state[x.from], D.state[x.to], x.var, x.val, x.cost>>), "C20 edges-differ-from-arcs")
+           \cup Tag(e.cfg[1] /\ (\A i \in dn : "val" \in DOMAIN e.nodes[i].fields)
+                    /\ BagOf(dn, LAMBDA i : <<e.nodes[i].st, e.nodes[i].fields.val>>) # BagOf(all, LAMBDA i : <<D.state[i], D.val[i]>>), "C20 value-label")
+           \cup Tag(hasTerm /\ BagOf(DOMAIN e.term, LAMBDA i : IF e.term[i].from \in ids THEN StOfId(e.term[i].from) ELSE <<>>) # BagOf(D.term, LAMBDA i : D.state[i]), "C20 terminal-edges")
+           \cup Tag(hasTerm /\ BagOf({j \in DOMAIN e.term : e.term[j].pw = 3}, LAMBDA i : IF e.term[i].from \in ids THEN StOfId(e.term[i].from) ELSE <<>>) # BagOf(bestTerm, LAMBDA i : D.state[i]), "C20 terminal-best-edges")
+           \cup Tag(D.full.n >= 0 /\ (ids # D.full.ids \/ drawnEdges # D.full.edges), "C20 complete-drawings-differ")
+           ELSE IF D.full.n < 0 THEN {}
+           ELSE \* partial drawing against the complete one of the same diagram
+                Tag(~(ids \subseteq D.full.ids), "C20 unknown-node")
+           \cup Tag(drawnEdges # {x \in D.full.edges : x.to \in ids}, "C20 edges-differ-from-arcs")
+           \cup Tag({e.term[i].from : i \in DOMAIN e.term} # (D.full.term \cap ids), "C20 terminal-edges")
+           \cup Tag(\E i \in dn : e.nodes[i].id \in D.full.ids /\ e.nodes[i].st # D.full.st[e.nodes[i].id], "C20 nodes-differ-from-diagram")
+           \* hidden = deleted: as many as the protocol deletes, and only states that it can delete
+           \cup Tag(inp.type = "exact" /\ hiddenN # 0, "C20 node-hidden-that-was-not-deleted")
+           \cup Tag(inp.type = "restricted" /\ hiddenN > delRestricted, "C20 node-hidden-that-was-not-deleted")
+           \cup Tag(inp.type = "restricted" /\ hiddenN < delRestricted, "C20 deleted-node-drawn")
+           \cup Tag(inp.type = "restricted" /\ ~SubBagV(hiddenSt, wideSt), "C20 node-hidden-that-was-not-deleted")
+           \cup Tag(inp.type = "relaxed" /\ (hiddenN > Cardinality(D.gone) \/ ~SubBagV(hiddenSt, goneSt)), "C20 node-hidden-that-was-not-deleted")
+           \cup Tag(inp.type = "relaxed" /\ hiddenN < Cardinality(D.gone) - D.nrecycled, "C20 deleted-node-drawn")))
 TViz ==
   /\ Ev("viz")
   /\ LET e == Rec[l] IN
      /\ devs' = Add(devs, VizTags(e))
-     /\ D' = [D EXCEPT !.shown = IF e.ok /\ ~e.cfg[5] /\ ~D.seen THEN {e.nodes[i].id : i \in DOMAIN e.nodes} ELSE D.shown,
-                       !.seen = D.seen \/ (e.ok /\ ~e.cfg[5])]
+     \* the first complete drawing of a diagram names its nodes
+     /\ D' = IF e.ok /\ e.cfg[5] /\ D.full.n < 0
+             THEN [D EXCEPT !.full = [n |-> Len(e.nodes), ids |-> {e.nodes[i].id : i \in DOMAIN e.nodes},
+                                      st |-> [id \in {e.nodes[i].id : i \in DOMAIN e.nodes} |-> (e.nodes[CHOOSE j \in DOMAIN e.nodes : e.nodes[j].id = id]).st],
+                                      edges |-> {[from |-> e.edges[i].from, to |-> e.edges[i].to, var |-> e.edges[i].var, val |-> e.edges[i].val, cost |-> e.edges[i].cost] : i \in DOMAIN e.edges},
+                                      term |-> {e.term[i].from : i \in DOMAIN e.term}]]
+             ELSE D
   /\ UNCHANGED <<I, HT, run, ddk, inp>>
 Next == TReset \/ TCompile \/ TNextVar \/ TDomain \/ TTransition \/ TCost \/ TMerge \/ TRelax \/ TCompiled \/ TSkip \/ TPanic \/ TViz
 Spec == Init /\ [][Next]_vars
